@@ -176,6 +176,7 @@ Section WithSort.
     - apply inv_untag_peer, H. - apply inv_upsert_tag, H. - apply inv_bump, H.
     - apply inv_dremove, H. - apply inv_dclose, H. - apply inv_protect, H. - apply inv_unprotect, H.
     - apply inv_advance, H. - apply (inv_trim sort sort_perm), H. - exact H.
+    - apply inv_dcloseq, H. - apply inv_dregister, H.
   Qed.
 
   Lemma inv_run : forall cfg ops s, inv s -> inv (run sort cfg s ops).
@@ -200,6 +201,8 @@ Section WithSort.
     - destruct (trim_pruned sort sort_perm cfg s Hinv) as [pr [E Hp]]. rewrite E.
       destruct (len_prune pr s) as [L _]; [intros p Hin; apply tracked_in_range, Hp, Hin|]. rewrite L. exact H.
     - exact H.
+    - unfold dcloseq. destruct (negb _); exact H.
+    - unfold dregister. destruct (_ && _); exact H.
   Qed.
 
   Lemma mon_step_model : forall cfg np s o, inv s -> (length (peers s) <= np)%nat ->
